@@ -483,4 +483,17 @@ theorem httpDistance_le {s : HttpSig} {o : HttpObs} {d : Nat} (h : httpDistance 
   have := distExpsw_le h3
   simp only [satAdd32, u32Max]; omega
 
+theorem sat9_eq {a b c d e f g h i : Nat} (ha : a ≤ 2) (hb : b ≤ 2) (hc : c ≤ 2) (hd : d ≤ 2)
+    (he : e ≤ 2) (hf : f ≤ 2) (hg : g ≤ 2) (hh : h ≤ 2) (hi : i ≤ 2) :
+    satAdd32 (satAdd32 (satAdd32 (satAdd32 (satAdd32 (satAdd32 (satAdd32 (satAdd32 a b) c) d) e) f) g) h) i
+      = a + b + c + d + e + f + g + h + i := by
+  rw [satAdd32_small (a := a) (by unfold u32Max; omega)]
+  rw [satAdd32_small (a := a + b) (by unfold u32Max; omega)]
+  rw [satAdd32_small (a := a + b + c) (by unfold u32Max; omega)]
+  rw [satAdd32_small (a := a + b + c + d) (by unfold u32Max; omega)]
+  rw [satAdd32_small (a := a + b + c + d + e) (by unfold u32Max; omega)]
+  rw [satAdd32_small (a := a + b + c + d + e + f) (by unfold u32Max; omega)]
+  rw [satAdd32_small (a := a + b + c + d + e + f + g) (by unfold u32Max; omega)]
+  rw [satAdd32_small (a := a + b + c + d + e + f + g + h) (by unfold u32Max; omega)]
+
 end Huginn.Match
